@@ -84,6 +84,7 @@ class Ledger:
         self.reach = sorted(n for n in ctx.cg.reachable(self.entries, stop=stop)
                             if n in self.prog.fns and self.prog.fns[n].bkind == "fn")
         self.sites = []
+        _PROG[0] = ctx.prog
         self.db = load_ledger()
         for n in self.reach:
             self._enumerate(self.prog.fns[n])
@@ -190,7 +191,7 @@ class Ledger:
             if why:
                 site.tactic, site.why = tac.__name__[2:], why
                 return True
-        e = self.db.get(site.key)
+        e = self.db.get(site.key) or self._renamed_entry(site)
         if e:
             ok, why = self.verify_entry(site, e)
             if ok:
@@ -199,6 +200,31 @@ class Ledger:
                 return True
             site.why = "ledger entry `%s` no longer verifies: %s" % (e.get("tactic"), why)
         return False
+
+    def _renamed_entry(self, site):
+        """a ledger entry for the same function and kind whose description equals this site's up to the names of locals
+        (a renamed local or parameter must not orphan a reviewed entry); only entries no current site matches exactly"""
+        names = set()
+        for o in site.operands:
+            for x in expr_walk(o):
+                if x[0] in ("local", "arg") and isinstance(x[2], str):
+                    names.add(x[2])
+        if not names:
+            return None
+        live = {s.key for s in self.sites}
+        prefix = "%s|%s|" % (short(site.fn.name), site.kind)
+        tok = re.compile(r"[A-Za-z_][A-Za-z_0-9]*|\S")
+        mine = tok.findall(site.desc)
+        hits = []
+        for k, e in self.db.items():
+            if not k.startswith(prefix) or k in live:
+                continue
+            theirs = tok.findall(k[len(prefix):].split("#")[0])
+            if len(theirs) != len(mine):
+                continue
+            if all(a == b or (a in names and re.match(r"[A-Za-z_]", b)) for a, b in zip(mine, theirs)):
+                hits.append(e)
+        return hits[0] if len(hits) == 1 else None
 
     # ---- ledger tactics that are re-verified on every run
     def verify_entry(self, site, e):
@@ -740,6 +766,16 @@ class Ledger:
                 if _implies_ge(c, v, a, b):
                     return "guarded: dominated by `%s` = %s, operands unchanged" % (expr_str(c, 80), v)
             # a - const with a's lower bound from an equality/greater guard is interval's job
+        if site.kind == "index" and len(site.operands) >= 2:
+            # v[i] where i is the Some-payload of v.iter().position(..): position only returns indices of existing elements
+            base = kit.strip_refs(_deref_target(site.operands[0]))
+            raw_args = fn.term(site.bb).get("args", [])
+            full = fn.expr(raw_args[1], 14) if len(raw_args) > 1 else site.operands[1]
+            for x in expr_walk(full):
+                if x[0] == "call" and x[1] and re.search(r"Iterator>?::position$", str(x[1])):
+                    src = expr_str(x[2][0], 200)
+                    if expr_str(base, 100) in src and not re.search(r"(skip|take|filter|step_by|rev|chain)\(", src):
+                        return "guarded: the index is the result of position() over the indexed collection itself"
         if site.kind == "unwrap":
             # v.get(i).expect(..) dominated by the false edge of `i >= v.len()` (or the true edge of `i < v.len()`)
             g = kit.strip_refs(site.operands[0])
@@ -820,9 +856,47 @@ def _deref_target(e):
     return e
 
 
+_GETTERS = {}
+
+
+def _getter_field(prog, name):
+    """field name if `name` is a trivial read accessor `fn f(&self) -> T { self.field }`, else None (cached)"""
+    key = (id(prog), name)
+    if key not in _GETTERS:
+        out = None
+        f = prog.fns.get(name)
+        if f is not None and f.bkind == "fn" and f.arg_count == 1 and len(f.live_blocks()) <= 2 and not list(f.calls()):
+            e = f.local_expr(0, 6)
+            while e[0] in ("ref", "deref"):
+                e = e[1]
+            if e[0] == "field" and isinstance(e[2], str):
+                base = e[1]
+                while base[0] in ("ref", "deref"):
+                    base = base[1]
+                if base[0] == "arg" and base[1] == 1:
+                    out = e[2]
+        _GETTERS[key] = out
+    return _GETTERS[key]
+
+
+_PROG = [None]
+
+
+def _ungetter(e):
+    """state.pc() and state.pc are the same value: rewrite trivial accessor calls into the field they return"""
+    prog = _PROG[0]
+    if prog is None or not isinstance(e, tuple) or not e:
+        return e
+    if e[0] == "call" and isinstance(e[1], str) and len(e[2]) == 1:
+        fld = _getter_field(prog, e[1])
+        if fld is not None:
+            return ("field", kit.strip_refs(_ungetter(e[2][0])), fld)
+    return tuple(_ungetter(x) if isinstance(x, tuple) else x for x in e)
+
+
 def _canon(e):
-    """PtrMetadata(x) and x.len() denote the same quantity"""
-    e = kit.strip_refs(e)
+    """PtrMetadata(x) and x.len() denote the same quantity; a trivial accessor call and the field it reads as well"""
+    e = kit.strip_refs(_ungetter(e))
     if e[0] == "un" and e[1] == "PtrMetadata":
         return ("len", kit.strip_refs(e[2]))
     if e[0] == "call" and e[1] and re.search(r"(<impl \[T\]>|Vec::<T, A>|<impl str>|String)::len$", e[1]) and len(e[2]) == 1:
@@ -859,6 +933,8 @@ def _constraint_interval(c, v, e):
 
 def _constraint_excluded(c, v, e):
     """value k such that the constraint says e != k"""
+    if _same(c, e) and isinstance(v, tuple) and v[0] == "not" and len(v[1]) == 1:
+        return v[1][0]          # `match x { 0 => .., _ => here }`
     if c[0] == "bin" and c[1] in ("Eq", "Ne") and isinstance(v, int):
         truth = v != 0
         ne = (c[1] == "Ne") == truth
